@@ -43,7 +43,7 @@ class Case:
         self.desc = desc
         self.info = {}
 
-    def party(self, pid, role, name, res="D", rng="os", s=None, rs=None, e=None, prologue=None, psks=None, rec="r"):
+    def party(self, pid, role, name, res="D", rng="os", s=None, rs=None, e=None, prologue=None, psks=None, rec="r", dup=None):
         if isinstance(name, str):
             name = name.encode("utf-8")
         t = ["party", pid, "role=" + role, "name=" + hx(name), "res=" + res, "rng=" + rng, "rec=" + (rec or "-")]
@@ -55,6 +55,8 @@ class Case:
             t.append("e=" + (e if isinstance(e, str) else hx(e)))
         if prologue is not None:
             t.append("prologue=" + (prologue if isinstance(prologue, str) else hx(prologue)))
+        if dup:
+            t.append("dup=" + dup)  # call the builder setter twice (s, r, p, k)
         for k, v in sorted((psks or {}).items()):
             t.append("psk%d=%s" % (k, v if isinstance(v, str) else hx(v)))
         self.lines.append(" ".join(t))
